@@ -7,7 +7,7 @@
        if stop || no retry option || attempts exhausted { return }
        if !needRetry { return }
        r.RetryAttempt++ ; hooks
-       select { case <-timer(interval): ; case <-ctx.Done(): return ctx.Err() }    (fixed code)
+       if interval > 0 { select { case <-timer(interval): ; case <-ctx.Done(): return ctx.Err() } }   (fixed code)
      }
    pinned code: stop := errors.Is(err, context.Canceled) only; time.Sleep(interval).
 
@@ -38,7 +38,8 @@ Definition rinit : rst := mkR PAttempt 0 1 None.
 Definition exhausted (max : option nat) (n : nat) : bool :=
   match max with Some m => m <=? n | None => false end.
 
-Definition rstep (fixed : bool) (max : option nat) (s : rst) (l : rlabel) : option rst :=
+(* zero: the retry interval is <= 0 - sleepContext returns at once, without looking at the context *)
+Definition rstepz (zero fixed : bool) (max : option nat) (s : rst) (l : rlabel) : option rst :=
   match l, r_phase s with
   | RCancel c, _ =>
       Some (match r_ctx s with None => mkR (r_phase s) (r_attempt s) (r_net s) (Some c) | _ => s end)
@@ -60,13 +61,21 @@ Definition rstep (fixed : bool) (max : option nat) (s : rst) (l : rlabel) : opti
   | RSleepDone, PSleep =>
       Some (mkR PAttempt (r_attempt s) (match r_ctx s with None => S (r_net s) | _ => r_net s end) (r_ctx s))
   | RSleepCtx, PSleep =>
-      if fixed then
+      if fixed && negb zero then
         match r_ctx s with
         | Some c => Some (mkR (PRet (Some (ECause c))) (r_attempt s) (r_net s) (r_ctx s))
         | None => None
         end
       else None
   | _, _ => None
+  end.
+
+Definition rstep := rstepz false.
+
+Fixpoint rrunz (zero fixed : bool) (max : option nat) (s : rst) (ls : list rlabel) : option rst :=
+  match ls with
+  | [] => Some s
+  | l :: r => match rstepz zero fixed max s l with Some s' => rrunz zero fixed max s' r | None => None end
   end.
 
 Fixpoint rrun (fixed : bool) (max : option nat) (s : rst) (ls : list rlabel) : option rst :=
@@ -78,6 +87,19 @@ Fixpoint rrun (fixed : bool) (max : option nat) (s : rst) (ls : list rlabel) : o
 (* everything that can still happen without the environment doing anything new, once the
    context has ended: the sleep's select (either case), the in-flight round trip returning
    the cause *)
+Fixpoint rfinishz (fuel : nat) (zero fixed : bool) (max : option nat) (s : rst) : list rst :=
+  match fuel with
+  | 0 => []
+  | S f =>
+      match r_phase s with
+      | PRet _ => [s]
+      | _ => flat_map (fun l => match rstepz zero fixed max s l with
+                                | Some s' => rfinishz f zero fixed max s'
+                                | None => []
+                                end) [RSleepCtx; RSleepDone; RAttemptDone ACtx]
+      end
+  end.
+
 Fixpoint rfinish (fuel : nat) (fixed : bool) (max : option nat) (s : rst) : list rst :=
   match fuel with
   | 0 => []
